@@ -34,14 +34,14 @@
 //                  Only histories whose canonical state is new are extended.  A history that ended
 //                  in std::overflow_error is terminal (the exception ends the parsing run).
 //   bound        : BOTH tiers run every configuration to the FIXPOINT (no new canonical state); no
-//                  depth bound is applied (measured: longest minimal history 16 (quick) / 20
+//                  depth bound is applied (measured: longest minimal history 15 (quick) / 19
 //                  (thorough); a safety cap of depth 64 exists and is reported in the counter
 //                  "configurations stopped by the depth cap", expected absent).
 //   sharding     : configurations are numbered in enumeration order (n outermost); configuration
 //                  i belongs to shard i % nshards; each is explored completely (both reader
 //                  modes) by exactly one shard.
-//   cost         : quick ~4 s per shard (gcc -O1), thorough ~16 s (gcc) / ~2.5 min (clang ASan+UBSan)
-//                  with 16 shards.
+//   cost         : per shard of 16, alone on a core: quick ~1.3 s (gcc -O1) / ~10 s (clang ASan+UBSan),
+//                  thorough ~11 s (gcc) / ~90 s (ASan+UBSan).
 //
 // REFERENCE MODEL (struct Model below: integer arithmetic from doc/Inputs-and-Parsing.md,
 //   "Incremental Input", not from the code) and the invariants checked after EVERY operation: see
@@ -57,11 +57,23 @@
 #include "engine/common.hpp"
 
 #include <algorithm>
+#include <csignal>
 #include <memory>
 #include <stdexcept>
 #include <string>
 #include <unordered_map>
 #include <vector>
+
+#include <unistd.h>
+
+#if defined( __has_feature )
+#if __has_feature( address_sanitizer )
+#define C07_CLANG_ASAN 1
+#endif
+#endif
+#if !defined( C07_CLANG_ASAN )
+#define C07_CLANG_ASAN 0
+#endif
 
 namespace pegtl = tao::pegtl;
 
@@ -546,7 +558,15 @@ struct Ctx
    Env env;
    std::unique_ptr< IObj > obj;
    Model m;
-   std::vector< Step > done;  // history executed so far (for reports)
+   const std::vector< Step >* prefix = nullptr;  // already checked history re-established by plain_step()
+   std::vector< Step > done;                     // steps executed by check_step() after the prefix
+   std::vector< Step > history() const
+   {
+      std::vector< Step > h;
+      if( prefix ) h = *prefix;
+      h.insert( h.end(), done.begin(), done.end() );
+      return h;
+   }
    bool ovf = false;
    bool short_read_seen = false;  // some reader call delivered less than asked and less than remaining
    bool harness_error = false;
@@ -675,7 +695,6 @@ static void plain_step( Ctx& x, const Step& s )
    long zr = 0;
    std::string what;
    const int rc = raw_step( x, s, sr, er, zr, what );
-   x.done.push_back( s );
    if( rc != 0 ) {
       x.ovf = true;
       return;
@@ -732,6 +751,26 @@ static long g_multi_call_ops = 0;
 static long g_overflow_seen = 0;
 static long g_overflow_at_end_of_stream = 0;  // overflow although the stream has fewer than k bytes left (permitted, documented for eof)
 static long g_short_read_cases = 0;
+static long g_discard_noop_at_chunk = 0;  // doc: "does nothing when there are less than Chunk bytes of consumed buffered data"; code also does nothing with exactly Chunk (harmless: maximum bytes still fit)
+static long g_discard_moved = 0;
+
+// a failing assert() inside the library (or a fatal signal) must not lose the case: report it
+// under its own signature together with everything found so far and stop this shard
+static Ctx* g_cur_ctx = nullptr;
+static const Step* g_cur_step = nullptr;
+
+static void on_fatal( int sig )
+{
+   signal( sig, SIG_DFL );
+   if( g_cur_ctx && g_cur_step ) {
+      report( std::string( "C07|assertion of the library failed or fatal signal|" ) + op_class( g_cur_step->op ), g_cur_ctx->cfg, g_cur_ctx->history(), step_name( *g_cur_step ), "operation returns or throws std::overflow_error", sig == SIGABRT ? "SIGABRT (assert)" : "fatal signal " + std::to_string( sig ) );
+   }
+   emit_violations();
+   vf::st.exhaustive = false;
+   vf::st.note = "C07 buffer_input BFS: STOPPED by a fatal signal inside the library, see the violation; exploration incomplete";
+   vf::finish();
+   _exit( 0 );
+}
 
 static void check_step( Ctx& x, const Step& s )
 {
@@ -741,18 +780,22 @@ static void check_step( Ctx& x, const Step& s )
    const std::size_t ro_pre = x.env.roff;
    x.done.push_back( s );
    const char* const opc = op_class( s.op );
-   auto V = [ & ]( const std::string& sig, const std::string& expected, const std::string& observed ) { report( "C07|" + sig, c, x.done, step_name( s ), expected, observed ); };
+   auto V = [ & ]( const std::string& sig, const std::string& expected, const std::string& observed ) { report( "C07|" + sig, c, x.history(), step_name( s ), expected, observed ); };
 
    if( !legal( m, s ) ) {
       x.harness_error = true;
       return;
    }
+   g_cur_ctx = &x;
+   g_cur_step = &s;
    std::size_t size_result = 0;
    bool empty_result = false;
    long end_result = 0;
    std::string what;
    const int rc = raw_step( x, s, size_result, empty_result, end_result, what );
    const Obs o = x.obj->observe( x.env );
+   g_cur_ctx = nullptr;
+   g_cur_step = nullptr;
 
    // reader calls of this step -------------------------------------------------------------- (4)
    std::size_t delivered = 0;
@@ -826,6 +869,8 @@ static void check_step( Ctx& x, const Step& s )
             V( "discard() moved current to an unexpected place", "free_before_current 0 or " + std::to_string( pre.cb ), "free_before_current == " + std::to_string( o.fb ) );
          if( int( o.occ ) != m.occ ) V( "discard() changed the amount of unconsumed buffered data", "occupied == " + std::to_string( m.occ ), "occupied == " + std::to_string( o.occ ) );
          m.cb = int( o.fb );
+         if( pre.cb == c.chunk && int( o.fb ) == pre.cb ) ++g_discard_noop_at_chunk;
+         if( int( o.fb ) == 0 && pre.cb > 0 ) ++g_discard_moved;
       }
       else if( int( o.fb ) != m.cb )
          V( "current() at the wrong place in the buffer|" + std::string( opc ), "free_before_current == " + std::to_string( m.cb ), "free_before_current == " + std::to_string( o.fb ) );
@@ -981,6 +1026,7 @@ static BfsResult bfs( const Config& c )
          std::vector< int > script;
          for( ;; ) {
             Ctx x( c );
+            x.prefix = &hist;
             for( const Step& h : hist ) plain_step( x, h );
             op.ans = script;
             check_step( x, op );
@@ -1094,6 +1140,11 @@ static std::vector< Config > configurations( bool thorough )
 int main( int argc, char** argv )
 {
    vf::parse_args( argc, argv );
+   signal( SIGABRT, on_fatal );
+#if !defined( __SANITIZE_ADDRESS__ ) && !C07_CLANG_ASAN
+   signal( SIGSEGV, on_fatal );
+   signal( SIGBUS, on_fatal );
+#endif
    const bool thorough = vf::args.thorough();
    g_kmax = thorough ? 6 : 5;
    g_maxmarks = thorough ? 3 : 2;
@@ -1184,6 +1235,8 @@ int main( int argc, char** argv )
    vf::count( "full-reads violations (must be 0)", full_viol );
    vf::count( "overflow_errors seen (transitions)", g_overflow_seen );
    vf::count( "overflow_errors while fewer than k bytes remain in the stream (permitted)", g_overflow_at_end_of_stream );
+   vf::count( "discard() transitions that moved the window to the buffer start", g_discard_moved );
+   vf::count( "discard() no-ops with exactly Chunk consumed bytes (doc says no-op only below Chunk; harmless)", g_discard_noop_at_chunk );
    vf::count( "reader calls", g_reader_calls );
    vf::count( "reader calls answered short", g_reader_short );
    vf::count( "reader asked for 0 bytes", g_zero_len_requests );
